@@ -124,6 +124,7 @@ void Fulfil(Chan& c, In& s) {
     yaclib_std::this_thread::sleep_for(std::chrono::nanoseconds{s.sleep_ns});
   }
   Jitter(s.jit);
+  VF_W(s.side, "C04,C11");
   s.side = s.code;
   s.set_call = Stamp();
   if (s.shared) {
@@ -135,6 +136,7 @@ void Fulfil(Chan& c, In& s) {
 }
 
 void Digest(In& s, const Result<Tracked, MyError>& r) {
+  VF_R(s.side, "C04,C11");
   s.oside = s.side;
   s.state = static_cast<int>(r.State());
   if (s.state == 0) {
